@@ -6,7 +6,7 @@ os.chdir('/verif')
 sel = sys.argv[1:]
 res_file = '/verif/mutations/RESULTS.json'
 old = {r['name']: r for r in json.load(open(res_file))} if os.path.exists(res_file) else {}
-EQUIV = {'C11_pad_with_nul': 'the reader strips NUL padding as well: no observable difference, the property still holds'}
+EQUIV = {}  # C11_pad_with_nul was equivalent under the first oracle; the emptiness comparison of round 5 reports it
 for f in sorted(glob.glob('/verif/mutations/*.diff')):
     name = os.path.basename(f)[:-5]
     if sel and not any(name.startswith(s) for s in sel):
